@@ -690,3 +690,309 @@ SPECS.append(FucSpec('C12', 'circuits/net/sockets.py', 'Server._on_disconnect', 
                          'delegates_to__close', z3.BoolVal(len(I.st.ghost.get('CLOSE_CALLS', [])) == 1)))),
                      fields=SRV_FIELDS, calls=dict(BASE_CALLS, **{'self._close': s_srv_close_summary}), cover=['return'],
                      clause='_on_disconnect(sock) is exactly _close(sock)'))
+
+
+# ============================================================================= Client and File endpoints
+EP_FIELDS = {
+    '_buffer': List(Bytes), '_closeflag': Bool, '_connected': Bool, '_sock': Ref, '_ssock': Ref, 'secure': Bool, '_poller': Ref,
+    '_bufsize': Int, '_fd': Ref, '_encoding': Str, '_mode': Str,
+    'P_read': Set(Ref), 'P_write': Set(Ref), 'G_accepted': Bytes, 'G_closed': Bool,
+}
+
+
+def ep_send(I, recv, args, kw):
+    """trusted send/ssl write/os.write for single-connection endpoints: the accepted bytes are recorded on the endpoint"""
+    I.st.trusted_used.add('socket.send / SSLSocket.write / os.write: returns n in [0,len(data)] having accepted exactly data[:n], '
+                          'or raises OSError(errno) having accepted nothing')
+    data = args[-1]
+    self = I.local('self')
+    I.st.ghost.setdefault('SENDS', []).append(recv)
+    I.oblige('send.requires.not_closed', z3.Not(I.fz(self, 'G_closed')), detail='nothing is written after the endpoint has closed')
+    if I.st.choice(2, 'send') == 0:
+        n = core.fresh('nsent', z3.IntSort())
+        I.assume(z3.And(0 <= n, n <= z3.Length(data.t)))
+        I.assume(z3.Concat(z3.SubString(data.t, 0, n), z3.SubString(data.t, n, z3.Length(data.t) - n)) == data.t)
+        acc = I.fz(self, 'G_accepted')
+        I.st.write_field(self.t, 'G_accepted', VStr(z3.Concat(acc, z3.SubString(data.t, 0, n)), True))
+        return VInt(n)
+    errno = core.fresh('errno', z3.IntSort())
+    I.st.inputs['send.errno'] = errno
+    I.st.ghost['SEND_ERRNO'] = errno
+    lib.raise_(I, 'OSError', VInt(errno))
+
+
+def ep_handle_close(I, recv, args, kw):
+    """socket/file object close(): marks the endpoint closed"""
+    if I.st.choice(2, 'sockclose') == 1:
+        lib.raise_(I, 'OSError', VInt(core.fresh('errno', z3.IntSort())))
+    I.st.write_field(I.local('self').t, 'G_closed', VBool(True))
+    return NONE
+
+
+def ep_objs(kind):
+    def f(I):
+        self = obj(I, 'self', kind)
+        p = I.field(self, '_poller')
+        I.assume(p.t != core.null(), 'requires a poller is attached')
+        h = I.field(self, '_fd' if kind == 'File' else '_sock')
+        I.assume(z3.And(h.t != core.null(), h.t != self.t, p.t != self.t, p.t != h.t))
+        b = I.field(self, '_buffer')
+        I.assume(b.lo <= b.hi)
+        I.st.inputs['buffer.len'] = b.hi - b.lo
+        if kind == 'Client':
+            I.assume(z3.Implies(I.fz(self, '_connected'), z3.Not(I.fz(self, 'G_closed'))), 'rep invariant: connected => open')
+            I.assume(z3.Implies(z3.Not(I.fz(self, '_connected')), b.hi == b.lo), 'rep invariant: nothing queued when not connected')
+        return self
+    return f
+
+
+def ep_pending(I, self, heap=None):
+    if heap is None:
+        b = I.field(self, '_buffer')
+    else:
+        b = List(Bytes).wrap([z3.Select(a, self.t) for a in heap['_buffer']])
+    I.assume(z3.Implies(b.hi <= b.lo, lib.flat(b) == z3.StringVal('')))
+    return lib.flat(b)
+
+
+def ep_acc(I, self, heap=None):
+    return I.fz(self, 'G_accepted') if heap is None else z3.Select(heap['G_accepted'][0], self.t)
+
+
+def ep_calls(kind):
+    c = dict(POLLER_CALLS)
+    c.update({e: ev_ctor(e) for e in EVENTS})
+    c.update({'self.fire': s_fire, 'self._sock.send': ep_send, 'self._ssock.write': ep_send, 'fd_write': ep_send,
+              'self._fd.fileno': lambda I, r, a, k: VInt(core.fresh('fileno', z3.IntSort())),
+              'self._sock.shutdown': s_sock_shutdown, 'self._sock.close': ep_handle_close, 'self._fd.close': ep_handle_close})
+    return c
+
+
+def ep_closed_hook(I, o):
+    return VBool(I.fz(o, 'G_closed'))
+
+
+def ep_close_summary(I, recv, args, kw):
+    """contract of Client._close / File._close (verified below)"""
+    self = recv
+    I.st.ghost.setdefault('CLOSE_CALLS', []).append(self)
+    kind = self.cls
+    live = I.fz(self, '_connected') if kind == 'Client' else z3.Not(I.fz(self, 'G_closed'))
+    if not I.branch(live, 'close_live'):
+        return NONE
+    h = I.field(self, '_fd' if kind == 'File' else '_sock')
+    p = I.field(self, '_poller')
+    _pset(I, p, 'P_read', h, False)
+    _pset(I, p, 'P_write', h, False)
+    b = I.field(self, '_buffer')
+    I.st.write_field(self.t, '_buffer', VList(Bytes, b.arrs, b.lo, b.lo))
+    I.st.write_field(self.t, '_closeflag', VBool(False))
+    I.st.write_field(self.t, '_connected', VBool(False))
+    I.st.write_field(self.t, 'G_closed', VBool(True))
+    I.st.ghost.setdefault('FIRED', []).append(VCons('disconnected' if kind == 'Client' else 'closed', []))
+    return NONE
+
+
+def ep__write_post(kind):
+    def post(I, outcome, ctx):
+        if no_escape(I, outcome):
+            return
+        cover(I, 'return')
+        self, data, pre = ctx['args']['self'], ctx['args']['data'], ctx['pre']
+        before = z3.Concat(ep_acc(I, self, pre), data.t, ep_pending(I, self, pre))
+        after = z3.Concat(ep_acc(I, self), ep_pending(I, self))
+        errno = I.st.ghost.get('SEND_ERRNO')
+        if errno is None:
+            cover(I, 'sent')
+            I.oblige('conserve.partial_or_full_send', after == before)
+        else:
+            cover(I, 'send_error')
+            I.oblige('conserve.transient_refusal_requeues', z3.Implies(transient(I, errno), after == before),
+                     detail='EAGAIN/EWOULDBLOCK/EINTR/ENOBUFS must lose nothing')
+            sig = len(fired(I, 'error')) + len(fired(I, 'disconnected')) + len(fired(I, 'closed'))
+            I.oblige('fatal_error_is_signalled', z3.Implies(z3.Not(transient(I, errno)), z3.BoolVal(sig >= 1)))
+            I.oblige('accepted_is_prefix', ep_acc(I, self) == ep_acc(I, self, pre))
+    return post
+
+
+def ep__write_setup(kind):
+    def setup(I):
+        self = ep_objs(kind)(I)
+        data = sym(I, 'data', Bytes)
+        I.assume(z3.Not(I.fz(self, 'G_closed')), 'requires endpoint open (callers: __on_write with a non-empty buffer)')
+        if kind == 'Client':
+            I.assume(I.fz(self, '_connected'))
+        return {'self': self, 'data': data}
+    return setup
+
+
+CLIENT_MAKE = '''
+from circuits.net.sockets import TCPClient
+NEEDS_SOCK = False
+class FakePoller:
+    def __init__(self): self._write=[]
+    def isWriting(self, fd): return fd in self._write
+    def addWriter(self, src, fd): self._write.append(fd)
+    def removeWriter(self, fd): self._write.remove(fd)
+    def discard(self, fd):
+        if fd in self._write: self._write.remove(fd)
+def make(s):
+    c = TCPClient.__new__(TCPClient)
+    c._sock=s; c._ssock=None; c.secure=False; c._poller=FakePoller(); c._buffer=deque(); c._closeflag=False; c._connected=True
+    c.fire = lambda e,*ch: None
+    return c, s, c._Client__on_write
+'''
+FILE_MAKE = '''
+import os
+from circuits.io import file as F
+NEEDS_SOCK = False
+class FakePoller:
+    def __init__(self): self._write=[]
+    def isWriting(self, fd): return fd in self._write
+    def addWriter(self, src, fd): self._write.append(fd)
+    def removeWriter(self, fd): self._write.remove(fd)
+    def discard(self, fd):
+        if fd in self._write: self._write.remove(fd)
+def make(s):
+    s.closed = False
+    F.fd_write = lambda fileno, d: s.send(d)
+    f = F.File.__new__(F.File)
+    f._fd=s; f._poller=FakePoller(); f._buffer=deque(); f._closeflag=False; f._encoding='utf-8'; f._mode='w'
+    f.fire = lambda e,*ch: None
+    return f, s, f._File__on_write
+'''
+
+
+def ep_write_post(I, outcome, ctx):
+    if no_escape(I, outcome):
+        return
+    cover(I, 'return')
+    self, data, pre = ctx['args']['self'], ctx['args']['data'], ctx['pre']
+    I.oblige('conserve.queued_in_order', ep_pending(I, self) == z3.Concat(ep_pending(I, self, pre), data.t))
+    I.oblige('conserve.nothing_sent', ep_acc(I, self) == ep_acc(I, self, pre))
+    kind = self.cls
+    h = I.field(self, '_fd' if kind == 'File' else '_sock')
+    I.oblige('writer_interest_on', z3.Select(I.field(I.field(self, '_poller'), 'P_write').arr, h.t))
+
+
+def ep_write_setup(kind):
+    def setup(I):
+        self = ep_objs(kind)(I)
+        return {'self': self, 'data': sym(I, 'data', Bytes)}
+    return setup
+
+
+def ep_on_write_setup(kind):
+    def setup(I):
+        self = ep_objs(kind)(I)
+        b = I.field(self, '_buffer')
+        I.assume(z3.Implies(b.hi > b.lo, z3.Not(I.fz(self, 'G_closed'))), 'rep invariant: data queued => endpoint open')
+        return {'self': self, 'sock': obj(I, 'sock', 'socket')}
+    return setup
+
+
+def ep__write_summary(I, recv, args, kw):
+    """contract of Client._write / File._write (verified)"""
+    (data,) = args
+    self = recv
+    c = I.st.choice(3, '_write')
+    before = z3.Concat(ep_acc(I, self), data.t, ep_pending(I, self))
+    if c == 2:
+        I.st.ghost.setdefault('FIRED', []).append(VCons('error', []))
+        if I.st.choice(2, 'fatal_closes') == 0:
+            ep_close_summary(I, self, [], {})
+        return NONE
+    nb = List(Bytes).fresh('buf_after_write')
+    I.assume(nb.lo <= nb.hi)
+    flat_wf(I, nb)
+    nacc = core.fresh('acc_after_write', S())
+    if c == 0:
+        I.assume(z3.PrefixOf(ep_acc(I, self), nacc))
+    else:
+        I.assume(nacc == ep_acc(I, self))
+    I.st.write_field(self.t, '_buffer', nb)
+    I.st.write_field(self.t, 'G_accepted', VStr(nacc, True))
+    I.assume(z3.Concat(nacc, ep_pending(I, self)) == before, '_write.ensures.conserve')
+    return NONE
+
+
+def ep_on_write_post(I, outcome, ctx):
+    if no_escape(I, outcome):
+        return
+    cover(I, 'return')
+    self, pre = ctx['args']['self'], ctx['pre']
+    before = z3.Concat(ep_acc(I, self, pre), ep_pending(I, self, pre))
+    after = z3.Concat(ep_acc(I, self), ep_pending(I, self))
+    closes = I.st.ghost.get('CLOSE_CALLS', [])
+    err = len(fired(I, 'error')) > 0
+    if not closes and not err:
+        I.oblige('conserve.while_open', after == before)
+    I.oblige('accepted_only_grows', z3.PrefixOf(ep_acc(I, self, pre), ep_acc(I, self)))
+    if closes and not err:
+        cover(I, 'deferred_close')
+        I.oblige('close_waits_for_buffer', before == ep_acc(I, self), detail='_close is reached only after all queued bytes were accepted')
+
+
+def ep_close_handler_post(I, outcome, ctx):
+    if no_escape(I, outcome):
+        return
+    cover(I, 'return')
+    self, pre = ctx['args']['self'], ctx['pre']
+    b0 = List(Bytes).wrap([z3.Select(a, self.t) for a in pre['_buffer']])
+    closes = I.st.ghost.get('CLOSE_CALLS', [])
+    I.oblige('close_deferred_while_buffered', z3.Implies(b0.hi > b0.lo, z3.BoolVal(len(closes) == 0)))
+    I.oblige('close_deferred_sets_flag', z3.Implies(b0.hi > b0.lo, I.fz(self, '_closeflag')))
+    I.oblige('close_keeps_queued_bytes', z3.Implies(b0.hi > b0.lo, ep_pending(I, self) == ep_pending(I, self, pre)))
+    I.oblige('close_sends_nothing', ep_acc(I, self) == ep_acc(I, self, pre))
+
+
+def ep__close_post(kind):
+    ev = 'disconnected' if kind == 'Client' else 'closed'
+
+    def post(I, outcome, ctx):
+        if no_escape(I, outcome):
+            return
+        cover(I, 'return')
+        self, pre = ctx['args']['self'], ctx['pre']
+        if kind == 'Client':
+            live = z3.Select(pre['_connected'][0], self.t)
+        else:
+            live = z3.Not(z3.Select(pre['G_closed'][0], self.t))
+        n = len(fired(I, ev))
+        I.oblige('%s_at_most_once' % ev, z3.BoolVal(n <= 1))
+        I.oblige('%s_iff_was_live' % ev, z3.BoolVal(n == 1) == live, detail='exactly one %s per connected/open endpoint' % ev)
+        I.oblige('only_that_event', z3.BoolVal(len(I.st.ghost.get('FIRED', [])) == n))
+        I.oblige('no_send', z3.BoolVal(len(I.st.ghost.get('SENDS', [])) == 0))
+        h = I.field(self, '_fd' if kind == 'File' else '_sock')
+        p = I.field(self, '_poller')
+        I.oblige('poller_released', z3.Implies(live, z3.And(z3.Not(z3.Select(I.field(p, 'P_read').arr, h.t)),
+                                                            z3.Not(z3.Select(I.field(p, 'P_write').arr, h.t)))))
+        b = I.field(self, '_buffer')
+        I.oblige('buffer_cleared', z3.Implies(live, b.hi == b.lo))
+        if kind == 'Client':
+            I.oblige('not_connected_afterwards', z3.Not(I.fz(self, '_connected')),
+                     detail='so a second _close fires nothing: one disconnected per connected')
+    return post
+
+
+for kind, file_, make in (('Client', 'circuits/net/sockets.py', CLIENT_MAKE), ('File', 'circuits/io/file.py', FILE_MAKE)):
+    calls = ep_calls(kind)
+    hooks = {'closed': ep_closed_hook} if kind == 'File' else {}
+    mk = dict(fields=EP_FIELDS, getattr_hooks=hooks, subclass_of_closed=())
+    SPECS.append(FucSpec('C11', file_, kind + '._write', ep__write_setup(kind), ep__write_post(kind),
+                         calls=dict(calls, **{'self._close': ep_close_summary}), cover=['sent', 'send_error'],
+                         replay=_write_replay(make),
+                         clause='%s._write: every outcome of send keeps accepted ++ queued intact; fatal errors are signalled' % kind, **mk))
+    SPECS.append(FucSpec('C11', file_, kind + '.write', ep_write_setup(kind), ep_write_post, calls=calls, cover=['return'],
+                         clause='%s.write queues data behind what is queued, sends nothing, turns writer interest on' % kind, **mk))
+    SPECS.append(FucSpec('C11', file_, kind + '.__on_write', ep_on_write_setup(kind), ep_on_write_post,
+                         calls=dict(calls, **{'self._write': ep__write_summary, 'self._close': ep_close_summary}),
+                         cover=['return', 'deferred_close'],
+                         clause='%s.__on_write: one payload per event, conservation, deferred close only when drained' % kind, **mk))
+    SPECS.append(FucSpec('C11', file_, kind + '.close', lambda I, k=kind: {'self': ep_objs(k)(I)}, ep_close_handler_post,
+                         calls=dict(calls, **{'self._close': ep_close_summary}), cover=['return'],
+                         clause='%s.close while data is queued defers' % kind, **mk))
+    SPECS.append(FucSpec('C12' if kind == 'Client' else 'C11', file_, kind + '._close', lambda I, k=kind: {'self': ep_objs(k)(I)},
+                         ep__close_post(kind), calls=calls, cover=['return'],
+                         clause='%s._close: exactly one %s per live endpoint, poller and buffer released, nothing sent'
+                                % (kind, 'disconnected' if kind == 'Client' else 'closed'), **mk))
